@@ -32,6 +32,8 @@ def dec(x):
             return complex(float.fromhex(x[1]), float.fromhex(x[2]))
         return [dec(v) for v in x]
     if isinstance(x, str):
+        if x == "default":
+            return x
         if "x" in x or "inf" in x or "nan" in x:
             return float.fromhex(x)
         return int(x)
